@@ -812,6 +812,8 @@ def c01n_join(ctx):
     jn = b.calls_to(r"JoinSet::<T>::join_next$")
     dec = [(sb, tb, _variant_name(prog, c.adt, v)) for sb, tb, v, c in df.variant_edges(b, "::ChunkedCalleeCheckDecision") if v != "otherwise"]
     trues = b.assigns(lambda st: st["rv"]["k"] == "use" and (st["rv"]["op"].get("c") or {}).get("s") == "true" and not st["lhs"][1])
+    # answering RepairDecision::Recompute on the spot is as good as raising the flag
+    trues = list(trues) + list(b.aggregates(r"repair::RepairDecision$", "Recompute"))
     o.sites = len(dec)
     if len(jn) != 1 or not {"Recompute", "Cancelled", "Cleaned"} <= {n_ for _, _, n_ in dec}:
         ctx.fail(o, Site(b, 0, 0), "anchor missing: join loop over ChunkedCalleeCheckDecision results (join_next=%d, variants tested=%s)" % (len(jn), sorted({n_ for _, _, n_ in dec})))
@@ -892,6 +894,42 @@ def c01p(ctx):
         ctx.fail(o, Site(pt, 0, 0), "anchor missing: the de-duplication insert in process_task")
 
 
+def c01q(ctx):
+    """Dirty marks parked in the side buffer (a worker lost the try-lock on the shared batch) are the only record of those
+    edges.  Whoever pops one owns it: every popped edge has to reach the consumer that writes it into the batch.  A drain
+    that pops and then decides to stop loses a mark — the caller keeps a clean edge and serves a stale value."""
+    prog = ctx.prog
+    o = ctx.ob("C01.q", "stripped-buffer/every-popped-edge-is-handed-out", "K2",
+               "in StrippedBuffer's drains a popped edge is returned on every path (no `None` answer after a successful pop)")
+    n = 0
+    for b in prog.all_bodies(["qbice"]):
+        if not b.name.startswith("StrippedBuffer::drain"):
+            continue
+        pops = b.calls_to(r"SegQueue::<T>::pop$|ArrayQueue::<T>::pop$|::pop$")
+        for p_ in pops:
+            n += 1
+            ctx.touch(b)
+            dest = p_.node["dest"]
+            if dest and dest[0] == 0 and not dest[1]:
+                continue                      # `queue.pop()` is the answer itself
+            some_edges = [(sb, tb) for sb, tb, v, c in df.variant_edges(b, "Option") if v == 1 and
+                          any(x.kind == "call" and x.site == p_ for x in df.origins_of_place(b, c.place))]
+            nones = b.assigns(lambda st: st["lhs"][0] == 0 and not st["lhs"][1] and st["rv"]["k"] == "agg" and (st["rv"].get("adt") or "").endswith("option::Option") and not st["rv"]["ops"])
+            if not some_edges:
+                # the value is used without a test: it must flow to the return place
+                if not any(k == "return" for k, s_, i in df.forward_uses(b, p_)):
+                    ctx.fail(o, p_, "%s pops an edge that does not reach its caller" % b.name)
+                continue
+            for sb, tb in some_edges:
+                r = b.reachable([tb])
+                for a in nones:
+                    if a.bb in r:
+                        ctx.fail(o, a, "%s pops a dirty edge and can then answer `None`: the popped mark is dropped, its caller is never marked dirty" % b.name)
+    o.sites = n
+    if n < 2:
+        ctx.fail(o, "(program)", "expected >= 2 pop sites in StrippedBuffer::drain_all / drain_limited, found %d" % n)
+
+
 def _variant_name(prog, adt, v):
     try:
         return prog.adts[adt]["variants"][int(v)]["name"]
@@ -908,6 +946,7 @@ def run(ctx):
     ctx.run_clause("C01.n", c01n_join)
     ctx.run_clause("C01.o", c01o)
     ctx.run_clause("C01.p", c01p)
+    ctx.run_clause("C01.q", c01q)
     ctx.run_clause("C01.j", c01j)
     ctx.run_clause("C01.i", c01i)
     for c, f in (("C01.a", c01a), ("C01.b", c01b), ("C01.c", c01c), ("C01.c", c01c_roles), ("C01.d", c01d), ("C01.e", c01e), ("C01.f", c01f), ("C01.g", c01g)):
